@@ -232,7 +232,7 @@ pub struct World {
     pub responses: Arc<Mutex<Vec<Value>>>,
     handles: Vec<(u64, u64, tokio::task::JoinHandle<()>)>,
     epoch: u64,
-    pub trace: Vec<Value>,
+    pub trace: Arc<Mutex<Vec<Value>>>,
 }
 
 impl World {
@@ -294,7 +294,7 @@ impl World {
     }
 
     fn note(&mut self, v: Value) {
-        self.trace.push(v);
+        self.trace.lock().unwrap().push(v);
     }
 
     async fn wait_call(&mut self, method: &str) -> Option<PendingCall> {
@@ -317,9 +317,11 @@ impl World {
                 let k = op["k"].as_u64().unwrap_or(0);
                 let epoch = self.epoch;
                 let responses = Arc::clone(&self.responses);
+                let trace = Arc::clone(&self.trace);
                 let h = tokio::spawn(async move {
                     let resp = mgr.handle_htlc(&req).await;
                     let v = serde_json::to_value(&resp).unwrap_or(Value::Null);
+                    trace.lock().unwrap().push(json!({"event": "response", "k": k, "epoch": epoch, "response": v}));
                     responses.lock().unwrap().push(json!({"k": k, "epoch": epoch, "response": v}));
                 });
                 self.handles.push((epoch, k, h));
@@ -510,7 +512,7 @@ pub fn run(input: &Value) -> Value {
             responses: Arc::new(Mutex::new(vec![])),
             handles: vec![],
             epoch: 0,
-            trace: vec![],
+            trace: Arc::new(Mutex::new(vec![])),
         };
         w.sim.height = num(&input["config"]["height"], 0);
         for op in input["setup"].as_array().cloned().unwrap_or_default() {
@@ -530,7 +532,7 @@ pub fn run(input: &Value) -> Value {
             let method = if c.method == "getinfo" { "get_info".to_string() } else { c.method.clone() };
             let ev = json!({"event": "rpc", "method": method, "params": c.params, "answer": Value::Null, "held": w.unanswered(),
                 "parts": w.sim.parts.iter().map(|p| json!([p.id, p.status])).collect::<Vec<_>>(), "state_records": w.state_records()});
-            w.trace.push(ev);
+            w.trace.lock().unwrap().push(ev);
             drop(c);
         }
         let mut panics = vec![];
@@ -548,7 +550,8 @@ pub fn run(input: &Value) -> Value {
             }
         }
         let responses = w.responses.lock().unwrap().clone();
-        json!({"outcome": "ok", "responses": responses, "trace": w.trace, "still_waiting": still_waiting, "panics": panics,
+        let trace = w.trace.lock().unwrap().clone();
+        json!({"outcome": "ok", "responses": responses, "trace": trace, "still_waiting": still_waiting, "panics": panics,
             "pending_calls": pending_methods,
             "datastore": w.sim.datastore.iter().map(|(k, (s, g))| json!({"key": k, "string": s, "generation": g})).collect::<Vec<_>>(),
             "parts": w.sim.parts.iter().map(|p| json!({"id": p.id, "status": p.status})).collect::<Vec<_>>()})
